@@ -14,7 +14,7 @@ import (
 // The real cleanup (with getShards, getTombstonedRepos, removeAll, moveAll, consistentRepoName,
 // maybeSetTombstone and index.SetTombstone/UnsetTombstone underneath) runs against the environment
 // model on an index directory whose content is symbolic: two repositories in simple shards, each
-// absent / indexed / in the trash (old, fresh or with a future timestamp), a compound shard holding
+// absent / indexed / in the trash (old, fresh, exactly 24 hours old or with a future timestamp), a compound shard holding
 // two more repositories with symbolic tombstones, a stray temporary file; the assigned set and the
 // shard-merging switch are symbolic.
 
@@ -49,21 +49,21 @@ func H_C32_cleanup() {
 	verifrt.FSMkdir("/idx")
 	now := time.Unix(c32Now, 0)
 	// repositories 1 and 2: simple shards
-	var loc [2]int // 0 absent, 1 index, 2 trash old, 3 trash fresh, 4 trash future
+	var loc [2]int // 0 absent, 1 index, 2 trash old, 3 trash fresh, 4 trash future, 5 trash exactly 24 h old (not yet older than 24 h)
 	var data [2][]byte
 	for i := 0; i < 2; i++ {
 		name := "r" + string(rune('1'+i))
 		data[i] = index.VerifSimpleShardBytes(uint32(i+1), name, []string{"a.go"}, []string{"package " + name + "\n"})
-		loc[i] = verifrt.Concretize(verifrt.IntRange("location", 0, 4))
+		loc[i] = verifrt.Concretize(verifrt.IntRange("location", 0, 5))
 		file := name + "_v16.00000.zoekt"
 		switch loc[i] {
 		case 1:
 			verifrt.FSPut("/idx/"+file, data[i])
 			verifrt.FS["/idx/"+file].MTime = c32Now - 3600
-		case 2, 3, 4:
+		case 2, 3, 4, 5:
 			verifrt.FSMkdir("/idx/.trash")
 			verifrt.FSPut("/idx/.trash/"+file, data[i])
-			verifrt.FS["/idx/.trash/"+file].MTime = []int64{c32Now - 25*3600, c32Now - 3600, c32Now + 3600}[loc[i]-2]
+			verifrt.FS["/idx/.trash/"+file].MTime = []int64{c32Now - 25*3600, c32Now - 3600, c32Now + 3600, c32Now - 24*3600}[loc[i]-2]
 		}
 	}
 	// repositories 3 and 4: one compound shard, possibly with tombstones
@@ -120,7 +120,7 @@ func H_C32_cleanup() {
 			}
 		} else {
 			verifrt.Assert(!inIndex, "an unassigned repository is no longer searchable")
-			if loc[i] == 1 || loc[i] == 3 || loc[i] == 4 {
+			if loc[i] == 1 || loc[i] >= 3 {
 				verifrt.Assert(inTrash, "an unassigned repository is trashed, and a trashed shard younger than 24 hours is kept")
 			}
 			if loc[i] == 2 {
